@@ -34,13 +34,19 @@ func verifyHistImpl(a map[string]any) any {
 	before := snap()
 	changed := false
 	runs := []any{}
-	for _, pv := range a["param_list"].([]any) {
+	il, _ := a["inters_list"].([]any)
+	for ri, pv := range a["param_list"].([]any) {
 		// identical inputs for every call: reset product directory and marker
 		b := map[string]any{}
 		for k, v := range a {
 			b[k] = v
 		}
 		b["params"] = pv
+		if ri < len(il) {
+			if use, ok := il[ri].(bool); ok && !use {
+				b["caller_inters"] = []any{} // this call is made without the caller's intermediates
+			}
+		}
 		_, _, prodDir, _ := materialiseProducts(a)
 		res := verifyOnce(b, md, keys, linkDir, prodDir)
 		res["ran"] = readMarker(marker)
@@ -83,6 +89,7 @@ func runC10(r *Runner, tier string, rng *Rng) {
 		cfg.Thresholds = []int{1, 1, 2}
 		cfg.ParamRules = rng.Chance(70)
 		cfg.CertSteps = rng.Chance(50)
+		cfg.CertChainBias = "inter-caller" // the verdict then depends on the caller's intermediates
 		if cfg.CertSteps {
 			cfg.LinkDSSE = false
 			cfg.PopKinds = []string{"cert"}
@@ -111,6 +118,13 @@ func runC10(r *Runner, tier string, rng *Rng) {
 			plist = append(plist, p)
 		}
 		c.Args["param_list"] = plist
+		// calls with and without the caller's intermediate certificates in one history: what an
+		// earlier call could establish must not help a later one (seeded change c10-trusted-cert-fingerprint-cache)
+		var il []any
+		for k := 0; k < nh; k++ {
+			il = append(il, !rng.Chance(35))
+		}
+		c.Args["inters_list"] = il
 		c.Feat = fmt.Sprintf("hist%d:%s", nh, c.Feat)
 		r.St.Count("histories")
 		batch = append(batch, c)
@@ -119,5 +133,5 @@ func runC10(r *Runner, tier string, rng *Rng) {
 		}
 	}
 	flush()
-	r.St.Rule = "generated supply chains (steps mixing key- and certificate-authorized links, layouts whose rules carry substitution markers so that the verdict depends on the parameters) verified 2-4 times on the SAME in-memory layout and key objects with equal or different parameter dictionaries; the product directory is reset before every call; every history is run 4x (12x thorough) and runs must agree among themselves and with the model (a pure function of its inputs); the caller's layout, keys and signatures are serialised before and after every call. Class = (history length, scenario features, verdict vector)."
+	r.St.Rule = "generated supply chains (steps mixing key- and certificate-authorized links, layouts whose rules carry substitution markers so that the verdict depends on the parameters) verified 2-4 times on the SAME in-memory layout and key objects with equal or different parameter dictionaries, with and without the caller's intermediate certificates; the product directory is reset before every call; every history is run 4x (12x thorough) and runs must agree among themselves and with the model (a pure function of its inputs); the caller's layout, keys and signatures are serialised before and after every call. Class = (history length, scenario features, verdict vector)."
 }
